@@ -8,7 +8,7 @@ A case is JSON-like:
   tip      index of the branch tip;  tags: [[string index, revision index or -1 (ghost)]]
 """
 
-NAMES = ["a", "b", "c", "d", "e", "f", "g", "h", "\u00e9", "e\u0301", "\u65e5\u672c", "x y", "w ", "-m", "A", "\u00c5", "A\u030a"]
+NAMES = ["a", "b", "c", "d", "e", "f", "g", "h", "\u00e9", "\u65e5\u672c", "x y", "w ", "-m", "A", "\u00c5"]
 PLAIN_NAMES = 8          # the first names are plain ASCII letters
 
 TEXTS = ["", "A\n", "B\n", "no newline", "l1\nl2\n", "éè\n", "\r\n", " \n", "x" * 40 + "\n", "\x00\x01bin\xff"]
@@ -50,6 +50,24 @@ def _desc(inv, i):
                 out.add(e[0])
                 todo.append(e[0])
     return out
+
+
+def _dir_moved(old, new):
+    by = {e[0]: e for e in old}
+    return any(e[3] == "d" and e[0] in by and (by[e[0]][1], by[e[0]][2]) != (e[1], e[2]) for e in new) or \
+        any(e[3] != by[e[0]][3] and "d" in (e[3], by[e[0]][3]) for e in new if e[0] in by)
+
+
+def long_case(n):
+    """A linear history of n revisions (REVISIONS_CHUNK_SIZE = 1000, tree cache 20, inventory cache 1)."""
+    S = ["Joe <joe@x.org>", "m", "t0\n", "t1\n", "t2\n"]
+    revs = []
+    for i in range(n):
+        inv = [[1, 0, 0, "f", 2 + i % 3, 0], [2, 0, 1 + (i // 400) % 2, "f", 2, int(i % 7 == 0)]]
+        revs.append({"parents": [i - 1] if i else [], "inv": inv, "committer": 0, "authors": [],
+                     "ts4": 4000 + 4 * i, "tz": 0, "msg": 1})
+    return {"plain": 1, "rewrite": 0, "no_tags": 0, "props": 1, "chunk": 0, "checkpoint": 0,
+            "names": ["a", "b", "c"], "strings": S, "revs": revs, "tip": n - 1, "tags": [[1, 999]]}
 
 
 class TreeGen:
@@ -195,7 +213,7 @@ class TreeGen:
         return None
 
 
-def gen_case(rng, n=None, focus=None, plain=None, nasty=0.25, nnames=None):
+def gen_case(rng, n=None, focus=None, plain=None, nasty=0.25, nnames=None, linear=False, nodirmove=False):
     """One history.  `focus`: an edit kind used for most edits (None = mixed).
     `nasty`: probability of drawing metadata/names from the 'normalised by the format' pools."""
     n = n or rng.choice([2, 2, 3, 3, 4, 5, 6])
@@ -210,22 +228,26 @@ def gen_case(rng, n=None, focus=None, plain=None, nasty=0.25, nnames=None):
     idents = IDENTS if use_nasty else IDENTS[:GOOD_IDENTS]
     revs = []
     for i in range(n):
-        if i == 0 or rng.random() < 0.04:
+        if i == 0 or (not linear and rng.random() < 0.04):
             ps = []
             inv = []
             for _ in range(rng.choice([1, 2, 3, 4, 6])):
                 tg.new_entry(inv)
         else:
-            left = i - 1 if rng.random() < 0.6 else rng.randrange(max(0, i - 4), i)
+            left = i - 1 if (linear or rng.random() < 0.6) else rng.randrange(max(0, i - 4), i)
             ps = [left]
-            if rng.random() < 0.3 and i >= 2:
+            if not linear and rng.random() < 0.3 and i >= 2:
                 pool = [x for x in range(max(0, i - 5), i) if x != left]
                 rng.shuffle(pool)
                 ps.extend(pool[:1 if rng.random() < 0.8 else 2])
             inv = [list(e) for e in revs[left]["inv"]]
             for _ in range(rng.choice([0, 1, 1, 1, 2, 2, 3])):
                 for _try in range(4):
+                    keep = [list(e) for e in inv]
                     if tg.op(inv, focus if (focus and rng.random() < 0.7) else None):
+                        if nodirmove and _dir_moved(revs[left]["inv"], inv):
+                            inv[:] = keep
+                            continue
                         break
         committer = s(rng.choice(idents))
         authors = []
